@@ -38,7 +38,7 @@ ASSUMPTIONS = [
     "repeatability compares serialisations as bytes and, if they differ, re-parsed up to blank-node bijection (a respelling is a probe, not an alarm)",
     "a faulted read (failing destination, refused network) may raise; it may not change the source",
 ]
-PROBES = ["dest-write-failed", "lazy-reader-left-open-across-reads", "reader-cancelled", "foreign-graph-as-context", "graph-unknown-in-query", "network-refused", "network-used", "bnode-named-graph-present", "empty-graph-present", "read-raised"]
+PROBES = ["dest-write-failed", "lazy-reader-left-open-across-reads", "reader-cancelled", "foreign-graph-as-context", "graph-unknown-in-query", "network-refused", "network-used", "bnode-named-graph-present", "empty-graph-present", "read-raised", "serializer-option"]
 KNOWN_PREDICATES = {}
 
 DEFAULT = "urn:x-rdflib:default"
@@ -100,6 +100,11 @@ QUERIES = [
     "SELECT ?g ?s FROM NAMED <http://sim.example/doc.ttl> WHERE { GRAPH ?g { ?s ?p ?o } }",
     "SELECT ?g ?s FROM <http://sim.example/doc.nt> FROM NAMED <http://sim.example/doc.ttl> FROM NAMED <%(g1)s> WHERE { { ?s ?p ?o } UNION { GRAPH ?g { ?s ?p ?o } } }",
     "ASK FROM NAMED <http://sim.example/moved> { GRAPH ?g { ?s ?p ?o } }",
+    "ASK { GRAPH <%(unk)s> { } }",
+    "SELECT ?s WHERE { ?s ?p ?o GRAPH <%(unk)s> { OPTIONAL { ?a ?b ?c } } } LIMIT 1",
+    "SELECT ?s ?g2 WHERE { ?s ?p ?o BIND(<%(unk)s> AS ?g2) GRAPH ?g2 { OPTIONAL { ?a <%(p)s> ?c } } }",
+    "ASK { ?s ?p ?o GRAPH <%(unk)s> { BIND(1 AS ?one) } }",
+    "SELECT ?s WHERE { GRAPH <%(g1)s> { ?s ?p ?o } } LIMIT 1",
 ]
 DOC_TTL = b"@prefix ex: <http://ex.org/> .\nex:ext ex:p ex:o , [ ex:q 1 ] .\n"
 DOC_NT = b"<http://ex.org/ext2> <http://ex.org/p> \"z\" .\n"
@@ -145,6 +150,10 @@ def generate(seed, tier):
             op["fail_at"] = g.randint(1, 4)
             op["err"] = g.choice(["ENOSPC", "EPIPE"])
             op["on"] = g.choice(["top", "top", "view"])
+            opts = {"longturtle": [{"canon": True}], "turtle": [{"spacious": True}, {"base": "http://ex.org/"}], "pretty-xml": [{"max_depth": 1}], "xml": [{"base": "http://ex.org/"}],
+                    "json-ld": [{"auto_compact": True}, {"context": {"ex": "http://ex.org/"}}, {"use_native_types": True}], "nt": [{"encoding": "utf-8"}], "trig": [{"base": "http://ex.org/"}], "n3": [{"base": "http://ex.org/"}]}
+            if op["format"] in opts and g.chance(0.4):
+                op["args"] = g.choice(opts[op["format"]])
         elif kindop == "query":
             op["q"] = g.randrange(len(QUERIES))
             op["mode"] = g.choice(["list", "list", "lazy", "bindings"])
@@ -280,23 +289,26 @@ def execute(trace, ctx):
         if k == "ser":
             f = op["format"]
             d = op["dest"]
+            args = dict(op.get("args") or {})
+            if args:
+                ctx.probe("serializer-option")
             if d == "none":
-                out = t.serialize(format=f)
+                out = t.serialize(format=f, **args)
                 return ("bytes", f, out if isinstance(out, bytes) else out.encode("utf-8")), False
             if d == "stream":
                 b = io.BytesIO()
-                t.serialize(destination=b, format=f)
+                t.serialize(destination=b, format=f, **args)
                 return ("bytes", f, b.getvalue()), False
             if d == "path":
                 pth = os.path.join(tmpdir, f"out{op['uid']}{'b' if second else 'a'}.{f}")
-                t.serialize(destination=pth, format=f)
+                t.serialize(destination=pth, format=f, **args)
                 with open(pth, "rb") as fh:
                     return ("bytes", f, fh.read()), False
             import errno as _e
 
             sink = FailingSink(op["fail_at"], getattr(_e, op["err"]))
             try:
-                t.serialize(destination=sink, format=f)
+                t.serialize(destination=sink, format=f, **args)
             finally:
                 if sink.fired:
                     ctx.fault("dest-" + op["err"])
